@@ -46,6 +46,12 @@ func Run(c *hx.Ctx) error {
 	for i := 0; i < nRandom; i++ {
 		randomLog(c, r.Fork(), logLen)
 	}
+	// Part C: every registered command type (the 40 outside the Lean model too), oracle only
+	if c.Arg("allkinds", "1") == "1" {
+		for i := 0; i < nRandom; i++ {
+			allKindsLog(c, r.Fork(), logLen)
+		}
+	}
 	return nil
 }
 
@@ -62,6 +68,7 @@ type tracker struct {
 	failedSeen  bool
 	interesting bool
 	history     *metax.History // names / ids handed out so far (the history clauses of the oracle)
+	ownerless   bool           // ReSharding asked for more shards than there are partitions: a shard without owner and index
 	dropped     bool           // a DropMeasurement purged an entry
 	recreated   bool           // a measurement was created after a purge (the life cycle went round)
 }
@@ -200,6 +207,9 @@ func (t *tracker) classify(clause string) string {
 		if t.idxPruned {
 			return "index_pruned_under_live_shard"
 		}
+		if t.ownerless {
+			return "resharding_more_shards_than_partitions"
+		}
 	}
 	return ""
 }
@@ -320,6 +330,116 @@ func tooManyGroups(in *metax.Inst) bool {
 		}
 	}
 	return false
+}
+
+// ---- Part C: all 65 command types against the oracle alone ---------------------------------
+
+// allKindsLog drives one replica with random commands of *every* registered type (valid and
+// invalid arguments, life-cycle scripts spliced in). There is no model answer for most of them
+// (the op lines are `note`s); what is checked is the specification itself: the history clauses
+// (versioned names and ids handed out at most once, new ids above every id seen, version
+// counters never go back) and the clauses of WF that do not depend on how groups are laid out
+// in time: ids unique, ids below their counters, every shard's index and partitions exist, the
+// default policy exists.
+func allKindsLog(c *hx.Ctx, r *hx.Rng, logLen int) {
+	u := metax.NewUniverse(r.Fork())
+	in := metax.NewInst()
+	t := newTracker(c)
+	var pro []metax.Cmd
+	if r.Chance(90) {
+		pro = metax.Bootstrap(u)
+	}
+	n := len(pro) + 1 + r.Intn(logLen)
+	var script []metax.ScriptStep
+	scriptAt := -1
+	if r.Chance(40) {
+		script = metax.RandomLifeCycle(u, r).Steps
+		scriptAt = len(pro) + r.Intn(n-len(pro))
+		n += len(script)
+	}
+	for i := 0; i < n; i++ {
+		var cmd metax.Cmd
+		switch {
+		case i < len(pro):
+			cmd = pro[i]
+		case scriptAt >= 0 && i >= scriptAt && len(script) > 0 && r.Chance(75):
+			cmd = script[0](in.Data())
+			script = script[1:]
+		default:
+			cmd = u.Gen(nil)
+		}
+		if !t.stepOracleOnly(in, cmd) {
+			break
+		}
+	}
+	c.Case("all|"+strings.Join(t.hist, "|"), t.failedSeen || t.recreated)
+}
+
+func hasOwnerlessShard(in *metax.Inst) bool {
+	for _, db := range in.Data().Databases {
+		for _, rp := range db.RetentionPolicies {
+			for i := range rp.ShardGroups {
+				for _, s := range rp.ShardGroups[i].Shards {
+					if len(s.Owners) == 0 {
+						return true
+					}
+				}
+			}
+		}
+	}
+	return false
+}
+
+// clauses of WF that hold whatever the time layout of the groups is
+var layoutFree = map[string]bool{"ids": true, "counters": true, "refs": true, "default": true}
+
+func (t *tracker) stepOracleOnly(in *metax.Inst, cmd metax.Cmd) bool {
+	c := t.c
+	res := in.Apply(cmd)
+	t.hist = append(t.hist, cmd.Desc+" => "+res.String())
+	c.Count("all-cmd:" + cmd.Kind)
+	line := "note all " + cmd.Kind + " " + res.String()
+	ln := c.Emit(line, line)
+	if res.Panic {
+		c.Count("all-panic:" + cmd.Kind)
+		return false // C15 records and classifies the panics of the unmodelled commands
+	}
+	if !res.OK {
+		t.failedSeen = true
+	}
+	if res.OK && metax.ReplacesCatalogue(cmd.Kind) {
+		// the catalogue now is whatever the command carried (the generator's is not a
+		// well-formed one): nothing to hold the code to from here on
+		return false
+	}
+	if res.OK && cmd.Kind == "DropMeasurement" {
+		t.dropped = true
+	}
+	if res.OK && cmd.Kind == "CreateMeasurement" && t.dropped {
+		t.recreated = true
+	}
+	if res.OK && cmd.Kind == "ReSharding" && hasOwnerlessShard(in) {
+		t.ownerless = true
+	}
+	if cmd.Kind == "PruneGroups" || cmd.Kind == "UpdateRetentionPolicy" || cmd.Kind == "DeleteShardGroup" {
+		// the facts the classification of the known findings needs
+		t.idxPruned = t.idxPruned || strings.Contains(cmd.Text, "PruneGroups 0 ")
+	}
+	for _, f := range t.history.Observe(in.Data(), cmd.Kind) {
+		if t.reported[f.Class] {
+			continue
+		}
+		t.reported[f.Class] = true
+		c.Violation(ln, f.Class, fmt.Sprintf("%s after %s", f.Desc, strings.Join(tail(t.hist, 14), " | ")))
+	}
+	for _, clause := range metax.WFViolations(in.Data()) {
+		if !layoutFree[clause] || t.reported[clause] {
+			continue
+		}
+		t.reported[clause] = true
+		c.Violation(ln, t.classify(clause), fmt.Sprintf("clause %s violated after %s", clause, strings.Join(tail(t.hist, 12), " | ")))
+	}
+	return true
 }
 
 // ---- bounded-exhaustive enumeration -----------------------------------------------------
